@@ -388,6 +388,14 @@ void do_action(struct tctx *c, const char *a)
 			vk_trace("a %s", a);
 			c->rw_reg[j] = 0;
 			iv_event_raw_unregister(c->rw[j]);
+			/* the object may be freed as soon as its unregister call has returned (C01): do so, under ASan, and
+			   continue with a fresh poisoned one -- a descriptor entry of the current kernel batch that still
+			   points into it must not be touched any more */
+			release(c->rw[j], sizeof(struct iv_event_raw));
+			c->rw[j] = fresh(sizeof(struct iv_event_raw));
+			IV_EVENT_RAW_INIT(c->rw[j]);
+			c->rw[j]->cookie = &c->crw[j];
+			c->rw[j]->handler = raw_callback;
 		}
 		break;
 	case 'w':
